@@ -33,7 +33,7 @@ func main() {
 		r.Assume("all puts, deletes and Next calls of one history happen on one goroutine (the property's precondition)")
 		r.Assume("obligation rule: a key owes a yield iff it stays in the collection from the iterator's creation, or it was inserted, lies beyond the NEXT key the iterator yields, and is not removed again (insertions between the last yielded key and the parked key may legitimately be missed)")
 		spin = vkit.NewSpinWatch(r, 30_000_000_000)
-		n := r.Scale(2600, 60000)
+		n := r.Scale(2600, 16000)
 		r.Cases("hist", n, runtime.GOMAXPROCS(0), func(c *vkit.Case) { dispatch(c, c.Index%8) })
 		// Generation-counter wrap-around: exactly 2^8 and 2^16 structural modifications between a
 		// reseek of the iterator and its next call (a counter copy narrower than the tree's would
@@ -609,10 +609,10 @@ func run[V any](c *vkit.Case, cfg tk.Config[int, V]) {
 	// is not possible, so the budget is enforced by a counting wrapper installed here.
 	d.sut = newBudgeted(d, cfg)
 	us := []int{20, 100, 600, 3000}
-	if r.Thorough() {
-		us = append(us, 20000, 50000)
+	d.univ = us[c.Index/8%len(us)]
+	if r.Thorough() && c.Index%160 == 7 {
+		d.univ = []int{20000, 50000}[c.Index/160%2] // a few deep trees (the model costs O(n) per step there)
 	}
-	d.univ = us[c.Index/6%len(us)]
 	// initial fill: a fraction of the universe, in one of several orders
 	fill := d.rnd.Range(d.univ/4, d.univ)
 	switch d.rnd.Intn(3) {
